@@ -198,6 +198,10 @@ class C02(Prop):
         steps = [{"t": "call", "m": m, "a": a, "k": k, "tag": "probe"},
                  {"t": "call", "m": "get", "a": [E(b"sentinel")], "k": {}, "tag": "sentinel"}]
         scn = {"property": self.id, "world": w, "steps": steps}
+        if rng.random() < 0.06:
+            # legal-but-unusual event: the write is interrupted (EINTR) after part of the request has left;
+            # whatever reaches the server must still be (a prefix of) the intended request, never a re-sent mix
+            steps[0]["faults"] = [{"at": ["sendall", 0], "kind": "eintr", "sent": rng.choice([1, 3, 6, 12, 25])}]
         if stack != "hash" and rng.random() < 0.12:
             # the same token used once as a stats / cache_memlimit argument and once as a key (two call sites
             # that validate through the same helper with different prefixes), in either order
@@ -315,6 +319,8 @@ class C02(Prop):
                                 line=repr(o["line"])[:120], key=repr(args[0])[:80] if args else None))
             else:
                 want = self.intent(scn, rec, args, kwargs)
+                if rec.fired and want is not None:
+                    want = want[:len(got)] if got == want[:len(got)] else want   # an interrupted write may be cut short
                 if want is None:
                     out.append(viol("uninterpretable-arguments-were-sent", rec, got=repr(got)[:300]))
                 elif want != got:
@@ -380,7 +386,7 @@ class C02(Prop):
         return ("rejected-before-sending", "accepted-and-parsed", "whitespace-only-key", "empty-key",
                 "key-at-250-boundary", "value-with-protocol-text-stored", "non-integer-argument",
                 "illegal-key-inside-multi-key-call", "unicode-key-accepted",
-                "token-shared-between-stats-argument-and-key")
+                "token-shared-between-stats-argument-and-key", "write-interrupted-after-partial-send")
 
     def probes(self, scn, res):
         p = {}
@@ -389,6 +395,8 @@ class C02(Prop):
         st = scn["steps"][pi]
         if pi > 0:
             p["token-shared-between-stats-argument-and-key"] = 1
+        if rec.fired:
+            p["write-interrupted-after-partial-send"] = 1
         args = [codec.dec(x) for x in st["a"]]
         if rec.outcome == "raise" and rec.sent == 0:
             p["rejected-before-sending"] = 1
